@@ -14,3 +14,4 @@
 (lemma identsOK-parts :induction n (forall ((s Str) (l Seq_Node) (n Int)) (! (=> (identsOK s l n) (and (identsWFL l n) (spanSafeList l n) (spansInL (Str.len s) l n) (shapeOKList l n))) :pattern ((identsOK s l n)))))
 (lemma identsOK-snoc :induction n (forall ((s Str) (l Seq_Node) (x Node) (n Int)) (! (=> (<= n (Seq_Node.len l)) (= (identsOK s (Seq_Node.snoc l x) n) (identsOK s l n))) :pattern ((identsOK s (Seq_Node.snoc l x) n)))))
 (lemma identsOK-first (forall ((s Str) (l Seq_Node) (n Int)) (! (=> (and (identsOK s l n) (> n 0)) (spanValid (SpanOfList l n))) :pattern ((identsOK s l n) (SpanOfList l n)))))
+
